@@ -114,9 +114,16 @@ def run(c):
         behs = S.per_prefix(behs, S.first_concurrent_forward, 2 if quick else 8)
         S.replay(c, behs, dict(cs, Pre_ForwardConcurrent=False), "real jobs.Job, overtaking retention requests", harness="storejob")
     # 6. directory states (1..3 snapshot ids per window) materialised on a real LocalDirectory + real LoadCheckpoint
+    faults = 0
     for start, span in (WINDOWS_QUICK if quick else WINDOWS_THOROUGH):
         behs, cs = S.dirstates(c, start, span)
         S.replay(c, behs, cs, "directory states")
+        # the same directories when the listing of the restart breaks off with an error at its 1st..4th entry (storage
+        # fault): the start-up may fail and be retried; a store that starts must have resumed from the newest checkpoint
+        res = S.replay(c, behs, cs, "directory states, failing listing", ListFaults=True)
+        faults += res.get("counters", {}).get("restarts_with_a_failing_listing", 0)
+    if not faults:
+        c.errors.append("vacuity: no restart met a failing listing")
 
 
 def replay(c, path):
